@@ -250,6 +250,28 @@ var c08Space = hx.Define("c08.spacing", func(c *c08SpaceCase, s *hx.Sub) *hx.Vio
 	return nil
 })
 
+// (4b) maps and keys of named string types: a.b and a["b"] read the same entry
+
+type c08NamedCase struct {
+	Expr string `json:"expr"`
+	Want string `json:"want"`
+}
+
+var c08Named = hx.Define("c08.named-key-types", func(c *c08NamedCase, s *hx.Sub) *hx.Violation {
+	b := map[string]any{"nk": hx.NamedKeyMap(map[string]any{"b": 5, "c": map[string]any{"d": 8}}), "plain": map[string]any{"b": 6}, "k": "b", "lang": hx.NamedString("b"),
+		"arr": []any{hx.NamedKeyMap(map[string]any{"b": 1}), hx.NamedKeyMap(map[string]any{"b": 2})}}
+	src := "{{ " + c.Expr + " }}"
+	o := hx.Render(src, b)
+	if o.Panic != nil {
+		return hx.V("panic@"+o.Panic.Site, "%s: %v", src, o.Panic)
+	}
+	if !o.OK() || o.Out != c.Want {
+		return hx.V("c08:named-key", "%s with nk a map[K]any (type K string) holding b: 5, lang a value of a named string type spelling b, k the string b: rendered %v, expected %q", src, o, c.Want)
+	}
+	s.NT()
+	return nil
+})
+
 // (5) unknown filter / too many arguments are errors
 
 type c08ArityCase struct {
@@ -420,6 +442,15 @@ func TestC08(t *testing.T) {
 	for i := range lits {
 		if env.Mine(i) {
 			lit.Run(&lits[i])
+		}
+	}
+
+	nkc := c08Named.On(col, "exhaustive over a list: a map whose key type is a named string type, and an index whose type is one, read in dot and bracket spelling, with a literal, a string variable and a named-string variable, nested and through the map filter; oracle: the entry. Distinct by construction", true)
+	for i, c := range []c08NamedCase{{"nk.b", "5"}, {`nk["b"]`, "5"}, {"nk[k]", "5"}, {"nk[lang]", "5"}, {"plain[lang]", "6"}, {"plain.b", "6"}, {"nk.c.d", "8"}, {`nk["c"].d`, "8"}, {"nk.zz", ""}, {"nk.size", "2"},
+		{`arr | map: "b" | join`, "1 2"}, {"arr[0].b", "1"}, {"arr.first.b", "1"}} {
+		if env.Mine(i) {
+			c := c
+			nkc.Run(&c)
 		}
 	}
 
